@@ -111,6 +111,10 @@ def run(chk, ctx) -> None:
     _owner(chk, ctx)
     _terminal(chk, ctx)
     _exhaustive_split(chk, ctx)
+    from .cover import collect_conditions, initial_ledger, pots_resets
+    initial_ledger(chk, ctx)
+    pots_resets(chk, ctx)
+    collect_conditions(chk, ctx)
 
 
 # ------------------------------------------------------------ mirror/transfer
